@@ -235,6 +235,49 @@ def performInclude (instr tmplAe cost limit : Nat) (newBlocks : Nat → Option B
   -- `reset_closure(old_closure); decr_depth(..)` — before `ok!(rv.map_err(..))`
   (res.1, { s3 with frames := setTopClosure old s3.frames, outerDepth := s3.outerDepth - cost }, res.2.2)
 
+/-- what the lookup of one candidate name of an `include` yields -/
+inductive Choice where
+  /-- the name is not a string: `Err` -/
+  | notString
+  /-- `TemplateNotFound`: remembered in `templates_tried`, next candidate -/
+  | missing
+  /-- any other loader error: `Err` -/
+  | loadError
+  /-- the template exists -/
+  | found (instr tmplAe : Nat) (newBlocks : Nat → Option BlockStack) (body : Body)
+
+/-- the whole `Executor::perform_include`: the candidates are tried in order, the first that exists
+is evaluated (`performInclude`: the closure of the including frame is detached only around that
+evaluation); if none exists the statement is an error or — with `ignore missing` / an empty list —
+does nothing at all -/
+def includeStmt (cost limit : Nat) (ignoreMissing : Bool) :
+    List Choice → Nat → St → Out → Res × St × Out
+  | [], tried, s, o => if tried > 0 ∧ ignoreMissing = false then (.err, s, o) else (.ok, s, o)
+  | .notString :: _, _, s, o => (.err, s, o)
+  | .loadError :: _, _, s, o => (.err, s, o)
+  | .missing :: rest, tried, s, o => includeStmt cost limit ignoreMissing rest (tried + 1) s o
+  | .found instr ae nb body :: _, _, s, o => performInclude instr ae cost limit nb body s o
+
+/-- the same with `take_closure()` hoisted in front of the loop over the candidates while
+`reset_closure(..)` stays behind the evaluation of a found template: every way out that does not
+evaluate a template leaves the closure of the including frame detached -/
+def includeStmtHoisted (cost limit : Nat) (ignoreMissing : Bool) (choices : List Choice)
+    (s : St) (o : Out) : Res × St × Out :=
+  let old := topClosure s.frames
+  let s0 : St := { s with frames := setTopClosure none s.frames }
+  let rec go : List Choice → Nat → Res × St × Out
+    | [], tried => if tried > 0 ∧ ignoreMissing = false then (.err, s0, o) else (.ok, s0, o)
+    | .notString :: _, _ => (.err, s0, o)
+    | .loadError :: _, _ => (.err, s0, o)
+    | .missing :: rest, tried => go rest (tried + 1)
+    | .found instr ae nb body :: _, _ =>
+      if s0.depth + cost > limit then (.err, s0, o) else
+      let s1 : St := { s0 with outerDepth := s0.outerDepth + cost }
+      let res := withExec (.replace nb) instr ae s.currentBlock body s1 o
+      (res.1, { res.2.1 with frames := setTopClosure old res.2.1.frames,
+                             outerDepth := res.2.1.outerDepth - cost }, res.2.2)
+  go choices 0
+
 /-- the restored part of the state -/
 def Same (a b : St) : Prop :=
   a.frames = b.frames ∧ a.outerDepth = b.outerDepth ∧ a.instructions = b.instructions ∧
